@@ -69,7 +69,15 @@ def run(ctx):
                     if depth == 0:
                         tops.append(li + 1)
                 pos = rng.choice(tops)
-                new = lines[:pos] + stmt.split("\n") + lines[pos:]
+                if j % 3 == 2 and not kind.startswith("missing"):
+                    # the erroneous statement sits in an included file (the failure has to come back through .include)
+                    inc = f"zq_inc_{i}_{j}.s"
+                    with open(run_.tmp + "/" + inc, "w", encoding="utf-8") as fh:
+                        fh.write("nop\n" + stmt + "\nnop\n")
+                    new = lines[:pos] + [f".include '{inc}'"] + lines[pos:]
+                    kind += "@include"
+                else:
+                    new = lines[:pos] + stmt.split("\n") + lines[pos:]
                 cases.append(("\n".join(new) + "\n", kind))
         cli_budget = 40 if tier == "quick" else 600
         for src, kind in cases:
